@@ -18,6 +18,7 @@ import (
 	"github.com/olric-data/olric/config"
 	"github.com/olric-data/olric/internal/cluster/partitions"
 	"github.com/olric-data/olric/internal/discovery"
+	"github.com/olric-data/olric/internal/verifhook"
 )
 
 // Config describes a cluster.
@@ -600,4 +601,19 @@ func (c *Cluster) NewClusterClient() (*olric.ClusterClient, error) {
 		olric.WithConfig(cl),
 		olric.WithLogger(log.New(io.Discard, "", 0)),
 		olric.WithRoutingTableFetchInterval(time.Hour))
+}
+
+// Fingerprint summarises membership and routing as seen by every live member.
+// Monitors of "stable cluster" properties compare it before and after a case:
+// a change means that membership was not stable (for example a false failure
+// suspicion on an overloaded machine) and the case is inconclusive.
+func (c *Cluster) Fingerprint() string {
+	s := ""
+	counts := verifhook.Counts()
+	for _, m := range c.Live() {
+		// the number of routing table updates applied by the member: the periodic push is
+		// disabled in the harness, so every update is the consequence of a membership event
+		s += fmt.Sprintf("%s:%d:%x:%d;", m.Name, m.V.RT.NumMembers(), m.V.RT.Signature(), counts[m.Name+"|rt.update"])
+	}
+	return s
 }
